@@ -8,6 +8,7 @@
 EXTENDS Props, Json
 
 CONSTANTS Family,     \* which configurations / events to explore
+          WithPre,    \* also start from the families' established worlds (PreVariants)
           MaxNow,     \* bound on the abstract clock
           MaxIss,     \* bound on every issued-secret counter
           MaxDepth,   \* bound on behaviour length (state constraint)
@@ -128,10 +129,24 @@ WorldsOf(Fam) ==
              m \in { <<"auth", "oauth2", "logout">>, <<"auth", "oauth2", "lock", "remember", "logout">> },
              ew \in BOOLEAN }
 
+\* established parts that put a family's worlds where its interesting flows start (WithPre)
+PreVariants(Fam) ==
+  CASE Fam = "remember" -> { << [Ev("LoginPost", "b1") EXCEPT !.pid = "u1", !.pw = 1, !.rm = TRUE], Ev("DropSession", "b1") >> }
+    [] Fam = "expire"   -> { << [Ev("LoginPost", "b1") EXCEPT !.pid = "u1", !.pw = 1] >> }
+    [] Fam = "recover"  -> { << [Ev("RecoverStart", "b1") EXCEPT !.pid = "u1"] >> }
+    [] Fam = "otp"      -> { << [Ev("LoginPost", "b1") EXCEPT !.pid = "u2", !.pw = 2] >> }
+    [] Fam = "oauth"    -> { << [Ev("OAuthStart", "b1") EXCEPT !.prov = "pa", !.rm = TRUE] >> }
+    [] Fam = "twofa"    -> { << [Ev("LoginPost", "b1") EXCEPT !.pid = "u1", !.pw = 1] >>, << [Ev("LoginPost", "b1") EXCEPT !.pid = "u2", !.pw = 2] >> }
+    [] Fam = "lock"     -> { << [Ev("LoginPost", "b1") EXCEPT !.pid = "u1", !.pw = -1] >> }
+    [] OTHER -> {}
+
 Worlds ==
   IF Family \in FaultFamilies
   THEN { [w EXCEPT !.cfg.errWrites = ew, !.cfg.json = jm] : w \in WorldsOf(Base), ew \in BOOLEAN, jm \in BOOLEAN }
   ELSE WorldsOf(Family)
+       \cup (IF WithPre THEN { [cfg |-> w.cfg, seed |-> w.seed, pre |-> p] :
+                                 w \in {x \in WorldsOf(Family) : "pre" \notin DOMAIN x}, p \in PreVariants(Family) }
+             ELSE {})
 
 -----------------------------------------------------------------------------
 (* events *)
